@@ -3,6 +3,8 @@ package checks
 import (
 	"time"
 
+	"github.com/ProtonMail/gluon/db"
+
 	"verif/engine/explore"
 	"verif/scen/mbox"
 )
@@ -74,7 +76,7 @@ func C03(tier string) int {
 	if tier == "thorough" {
 		d, budget = 5, 25*time.Minute
 	}
-	return RunE1(E1Spec{
+	code := RunE1(E1Spec{
 		Prop: "C03", Level: "model_checking", Budget: budget,
 		Families: c03Families(d),
 		Assume: []string{
@@ -83,6 +85,25 @@ func C03(tier string) int {
 			"reference semantics: flags shared per message, \\Deleted per mailbox, case-insensitive; COPY/MOVE onto a mailbox that already holds the message re-adds it at the end; NO/BAD leaves the model unchanged",
 		},
 	})
+	// batch grid: message sets on both sides of the statement-batching limit L (db.ChunkLimit), through IMAP
+	L := db.ChunkLimit
+	ns := []int{L - 1, L, L + 1, 2*L + 1}
+	if tier == "thorough" {
+		ns = []int{L/2 - 1, L / 2, L/2 + 1, L - 1, L, L + 1, 2*L - 1, 2 * L, 2*L + 1}
+	}
+	var cases []any
+	for _, op := range []string{"store+kw", "store-kw", "store-seen", "store=seen", "store=none", "expunge", "uidexpunge", "close", "copy-other", "move-other", "copy-same"} {
+		for _, n := range ns {
+			cases = append(cases, mbox.GridCase{N: n, Op: op})
+		}
+	}
+	c2 := RunEnumMerge("C03", "batch_grid", EnumSpec{Prop: "C03", Level: "model_checking", Call: "c03grid", Cases: cases, Chunk: 1,
+		Rule:   "grid: message count N on both sides of the index's statement-batching limit x {STORE +/-/= flags, EXPUNGE, UID EXPUNGE, CLOSE, COPY / MOVE 1:* to another and to the same mailbox}; N messages are created by one connector batch, the command is issued over IMAP and every mailbox is compared with the model (membership, order, flags); distinct = distinct (operation, N, resulting counts)",
+		Assume: []string{"batch grid: one session, message set 1:* only"}})
+	if c2 > code {
+		code = c2
+	}
+	return code
 }
 
 func init() {
